@@ -37,8 +37,9 @@ struct Ledger {
 };
 Ledger g_led[2];                          // [0] std world (reference), [1] nostd world (real code)
 const std::set<int> *g_expect = nullptr;  // ids the reference destroyed in the operation in progress
-std::string g_kind, g_opname;             // "shared_ptr" / "unique_ptr", name of the operation in progress
+std::string g_kind, g_opname, g_opclass;   // "shared_ptr" / "unique_ptr", exact name and signature class of the operation in progress
 int g_next_id = 0;
+const std::string *g_hist = nullptr;      // the history so far (for messages produced inside a destructor)
 
 void on_create(int side, int id) {
   Ledger &l = g_led[side];
@@ -51,10 +52,11 @@ void on_destroy(int side, int id) {
   l.dtor[id]++;
   l.died_now.push_back(id);
   if (side == 1 && l.dtor[id] > 1)
-    g_c->exit_fail("C20:" + g_kind + ":destroyed-twice:" + g_opname, vf::sfmt("object #%d was destroyed a second time by %s %s", id, g_kind.c_str(), g_opname.c_str()));
+    g_c->exit_fail("C20:" + g_kind + ":destroyed-twice:" + g_opclass, vf::sfmt("after%s: object #%d was destroyed a second time by nostd::%s %s", g_hist ? g_hist->c_str() : "", id, g_kind.c_str(), g_opname.c_str()));
   if (side == 1 && g_expect && !g_expect->count(id))
-    g_c->exit_fail("C20:" + g_kind + ":premature-destroy:" + g_opname,
-                   vf::sfmt("nostd::%s %s destroyed the managed object #%d; the same operation on std::%s keeps it alive", g_kind.c_str(), g_opname.c_str(), id, g_kind.c_str()));
+    g_c->exit_fail("C20:" + g_kind + ":premature-destroy:" + g_opclass,
+                   vf::sfmt("after%s: nostd::%s %s destroyed the managed object #%d; the same operation on std::%s keeps it alive", g_hist ? g_hist->c_str() : "", g_kind.c_str(),
+                            g_opname.c_str(), id, g_kind.c_str()));
 }
 
 struct StdFam {
@@ -90,8 +92,12 @@ template <class H> struct Slot {
 
 struct Op {
   int code, i, j;
-  const char *name;
+  const char *name;  // exact operation (messages, traces, samples)
+  const char *cls;   // signature class: the name, except that every assignment whose source is the target itself or is
+                     // owned by the target's pointee (p = p, p = std::move(p), h = h->next, h->next = h->next->next, ...)
+                     // is one class: what distinguishes those failures is the aliasing, not the spelling
 };
+const char *const kAliased = "assign-aliased";
 
 // ==================================================================================================
 // shared_ptr world
@@ -158,6 +164,10 @@ const std::vector<Op> &shared_ops() {
   ops.push_back({S_D_NULL, -1, -1, "derived-assign-nullptr"});
   each_i(S_CTOR_CONV_MOVE, "ctor-converting-move");
   each_i(S_ASSIGN_CONV_MOVE, "assign-converting-move");
+  for (auto &o : ops) {
+    bool aliased = ((o.code == S_ASSIGN_COPY || o.code == S_ASSIGN_MOVE) && o.i == o.j) || o.code == S_ASSIGN_COPY_OWN_NEXT || o.code == S_ASSIGN_MOVE_OWN_NEXT || o.code == S_POP_NEXT;
+    o.cls = aliased ? kAliased : o.name;
+  }
   return ops;
 }
 
@@ -337,6 +347,10 @@ const std::vector<Op> &unique_ops() {
   ops.push_back({U_ARRAY_FRESH, -1, -1, "array-reset-raw"});
   ops.push_back({U_ARRAY_NULL, -1, -1, "array-assign-nullptr"});
   ops.push_back({U_ARRAY_MOVE, -1, -1, "array-assign-move"});
+  for (auto &o : ops) {
+    bool aliased = ((o.code == U_ASSIGN_MOVE || o.code == U_LINK_MOVE) && o.i == o.j) || o.code == U_ASSIGN_MOVE_OWN_NEXT || o.code == U_POP_NEXT;
+    o.cls = aliased ? kAliased : o.name;
+  }
   return ops;
 }
 
@@ -480,13 +494,14 @@ std::string ids(std::vector<int> v) {
 
 template <class WStd, class WNo> void drive(vf::Ctx &c, const char *kind, const std::vector<Op> &ops, int depth, uint64_t tag) {
   g_kind = kind;
-  g_opname = "start";
+  g_opname = g_opclass = "start";
   g_led[0].reset();
   g_led[1].reset();
   g_expect = nullptr;
   g_next_id = 0;
   std::string hist;
   std::string final_canon;
+  g_hist = &hist;
   {
     WStd ws;
     WNo wn;
@@ -501,7 +516,8 @@ template <class WStd, class WNo> void drive(vf::Ctx &c, const char *kind, const 
       for (size_t k = 0; k < ops.size(); ++k) if (ws.enabled(ops[k])) en.push_back((int)k);
       const Op &o = ops[en[c.pick("op", (int)en.size())]];
       g_opname = o.name;
-      std::string stage = std::string(kind) + ":" + o.name;
+      g_opclass = o.cls;
+      std::string stage = std::string(kind) + ":" + o.cls;  // a crash (ASan report) becomes C20:crash:<kind>:<class>
       c.stage(stage.c_str());
       hist += vf::sfmt(" %s(%d%s)", o.name, o.i, o.j >= 0 ? vf::sfmt(",%d", o.j).c_str() : "");
       c.trace("%s %s i=%d j=%d", kind, o.name, o.i, o.j);
@@ -523,22 +539,22 @@ template <class WStd, class WNo> void drive(vf::Ctx &c, const char *kind, const 
       g_next_id = g_next_id > after_ref ? g_next_id : after_ref;
       c.step();
       std::set<int> got(g_led[1].died_now.begin(), g_led[1].died_now.end());
-      chk(c, got == expect, std::string("C20:") + kind + ":not-destroyed:" + o.name,
+      chk(c, got == expect, std::string("C20:") + kind + ":not-destroyed:" + o.cls,
               vf::sfmt("after%s: nostd::%s destroyed %s, std::%s destroyed %s", hist.c_str(), kind, ids(g_led[1].died_now).c_str(), kind, ids(g_led[0].died_now).c_str()));
       std::string os = ws.observe(), on;
       {
         Quiet q(!c.tracing());
         on = wn.observe();
       }
-      chk(c, os == on, std::string("C20:") + kind + ":state-differs:" + o.name,
+      chk(c, os == on, std::string("C20:") + kind + ":state-differs:" + o.cls,
               vf::sfmt("after%s: nostd world [%s] vs std world [%s]", hist.c_str(), on.c_str(), os.c_str()));
-      chk(c, g_led[0].live == g_led[1].live, std::string("C20:") + kind + ":live-count:" + o.name,
+      chk(c, g_led[0].live == g_led[1].live, std::string("C20:") + kind + ":live-count:" + o.cls,
               vf::sfmt("after%s: %d live objects under nostd::%s, %d under std::%s", hist.c_str(), g_led[1].live, kind, g_led[0].live, kind));
       c.state(vf::sfmt("%s|%d|", kind, depth - dstep - 1) + wn.canon());
     }
     final_canon = wn.canon();
     // destroy every handle: the remaining objects must go exactly once on both sides
-    g_opname = "teardown";
+    g_opname = g_opclass = "teardown";
     c.stage((std::string(kind) + ":teardown").c_str());
     g_led[0].died_now.clear();
     ws.teardown();
@@ -556,7 +572,9 @@ template <class WStd, class WNo> void drive(vf::Ctx &c, const char *kind, const 
     chk(c, id < g_led[0].dtor.size() && g_led[1].dtor[id] <= 1 && g_led[1].dtor[id] == g_led[0].dtor[id], std::string("C20:") + kind + ":destruction-count",
             vf::sfmt("after%s: object #%zu destroyed %d times under nostd, %d times under std", hist.c_str(), id, g_led[1].dtor[id], g_led[0].dtor[id]));
   c.outcome(std::string(kind) + "|" + final_canon);
-  c.sample(std::string(kind) + ":" + hist + " => " + final_canon);
+  // evidence samples: prefer histories that exercise aliasing (self / own-next / swap / member assignment)
+  if (hist.find("self") != std::string::npos || hist.find("next") != std::string::npos || hist.find("member") != std::string::npos || hist.find("swap") != std::string::npos)
+    c.sample(std::string(kind) + ":" + hist + " => " + final_canon);
 }
 
 void setup(vf::Options &o) {
